@@ -1,0 +1,12 @@
+//go:build verif
+
+package compression
+
+// Contracts checked by /verif/gocv (comment-only file; see /verif/DESIGN.md §3).
+
+// C15. The compression middleware returns exactly what it was given (ghost scenario on the real middleware over an
+// in-memory store; bounded random search - the codecs are third-party stream compressors, outside the modelled subset).
+//@ func verifCompressionRoundTrip
+//@ mode nosafety
+//@ bounded 1500
+//@ ensures[C15:compressed-part-reads-back-exactly] result
